@@ -205,8 +205,14 @@ def scenarios(tier):
             pos = (len(shape.variants) - 1, 1)
             tl = [M(t) for t in cfg]
             add('%s/f-ignore/%s' % (ctag, tag), shape, tl, f={pos: [M(carrier, [P('ignore', sp_flag('ignore'))], whole=[carrier + ' = false'])]})
-            for rk in (3, -2, 0):
+            for rk in (3, -2, 0, 2 ** 63 - 1, -2 ** 63 + 1):
                 add('%s/f-rank%d/%s' % (ctag, rk, tag), shape, tl, f={pos: [M(carrier, [P('rank', sp_rank(rk))])]})
+            # the extremes of isize, alone and next to another parameter (a negative literal that is not the last token reaches the parser as a negation expression);
+            # isize::MIN is the default rank of a first field, so it goes on the first field of its element
+            pos0 = (pos[0], 0)
+            add('%s/f-rank-min/%s' % (ctag, tag), shape, tl, f={pos0: [M(carrier, [P('rank', sp_rank(-2 ** 63))])]})
+            add('%s/f-rank-min-method/%s' % (ctag, tag), shape, tl, f={pos0: [M(carrier, [P('rank', sp_rank(-2 ** 63)), P('method', sp_method('cmp_m'))])]})
+            add('%s/f-rank-max-method/%s' % (ctag, tag), shape, tl, f={pos: [M(carrier, [P('rank', sp_rank(2 ** 63 - 1)), P('method', sp_method('cmp_m'))])]})
             add('%s/f-rank-method/%s' % (ctag, tag), shape, tl, f={pos: [M(carrier, [P('rank', sp_rank(-1)), P('method', sp_method('cmp_m')), P('ignore', sp_notflag('ignore'))])],
                                                                      (0, 0): [M(carrier, [P('rank', sp_rank(0))])]})
             if len(cfg) == 1:
@@ -317,6 +323,13 @@ def scenarios(tier):
         add('multi3/' + tag, shape, [M('PartialOrd'), M('Ord'), M('Default', [P('new', sp_flag('new'))])],
             v=({0: [M('Default')]} if shape.kind == 'enum' else {}),
             f={(0, 0): [M('Ord', [P('rank', sp_rank(2))]), M('Default', [P('expression', sp_expr('3'))], whole=['Default = 3'])]}, ftypes={(0, 0): 'u8'})
+    # ---- several traits' attributes on one variant: order of the metas and their grouping into #[educe(..)] attributes
+    for vi in (0, 1):
+        add('multi-variant/en%d' % vi, en, [M('Debug'), M('Default'), M('PartialEq')],
+            v={vi: [M('Default'), M('Debug', [P('name', sp_name('Vv'))], whole=['Debug = Vv', 'Debug = "Vv"'])]},
+            f={(vi, 0): [M('PartialEq', [P('ignore', sp_flag('ignore'))]), M('Debug', [P('ignore', sp_flag('ignore'))])]}, ftypes={(vi, 0): 'u8', (vi, 1): 'u8'})
+        add('multi-variant3/en%d' % vi, en, [M('Debug'), M('Default', [P('new', sp_flag('new'))]), M('Hash')],
+            v={vi: [M('Debug', [P('nf', sp_bool('named_field', vi == 0)), P('name', sp_name('Vv'))]), M('Default')]}, ftypes={(vi, 0): 'u8', (vi, 1): 'u8'})
     return out
 
 
